@@ -17,12 +17,17 @@ def rnd_lens(r, maxrows=7, maxlen=6):
     return [0 if r.random() < 0.3 else r.randint(1, maxlen) for _ in range(n)]
 
 
+_NEGZERO = [0.0]          # set by the generators of value-moving operations only (the specification has no signed zero arithmetic)
+
+
 def rnd_val(r, dt, arith=True):
     """a value of dtype dt in the abstract encoding; arith=True keeps 32/64-bit values small (no-overflow regime)"""
     k = dt[0]
     if dt == "b1":
         return r.randint(0, 1)
     if k == "f":
+        if _NEGZERO[0] and r.random() < _NEGZERO[0]:
+            return [0, r.choice([-1, -1, 1])]           # zeros of both signs: operations that move values must keep the sign
         if r.random() < 0.04:
             return r.choice([[0, 0], [1, 0], [-1, 0]]) if not arith or True else [0, 1]
         num = r.randint(-24, 24)
@@ -44,7 +49,7 @@ def finite(v):
     return not (isinstance(v, list) and v[1] == 0)
 
 
-def rnd_arr(r, dt=None, lens=None, finite_only=False, distinct=False, infs=0.0):
+def rnd_arr(r, dt=None, lens=None, finite_only=False, distinct=False, infs=0.0, negzero=0.0):
     """infs > 0: a float array without NaN in which that share of the cells is +inf / -inf (repeated infinities included)"""
     dt = dt or r.choice(ALL_DTS)
     lens = rnd_lens(r) if lens is None else lens
@@ -58,6 +63,8 @@ def rnd_arr(r, dt=None, lens=None, finite_only=False, distinct=False, infs=0.0):
                 k += 1
             elif infs and dt[0] == "f" and r.random() < infs:
                 v = [r.choice([1, 1, -1]), 0]
+            elif negzero and dt[0] == "f" and r.random() < negzero:
+                v = [0, r.choice([-1, -1, 1])]                  # zeros of both signs: operations that move values must keep the sign
             else:
                 v = rnd_val(r, dt)
                 while finite_only and not finite(v):
@@ -218,7 +225,7 @@ def sel_shape(arr, rs, cs):
 
 def gen_c03(r):
     lens = rnd_lens(r, 7, 5)
-    dt = r.choice(["i8", "i8", "i4", "f8", "u1", "i2", "b1"])
+    dt = r.choice(["i8", "i8", "i4", "f8", "f8", "u1", "i2", "b1", "f4"])
     arr = rnd_arr(r, dt, lens, distinct=True)
     n = len(lens)
     if r.random() < 0.08:
@@ -239,8 +246,10 @@ def gen_c03(r):
     elif vk == "col":
         k = len(shp) if shp is not None else r.randint(1, 3)
         val = ["col", [rnd_val(r, dt) for _ in range(k)]] if k else ["scalar", rnd_val(r, dt)]
-        if k and dt[0] == "f" and r.random() < 0.5:
+        if k and dt[0] == "f" and r.random() < 0.35:
             val[1][r.randrange(k)] = r.choice([[1, 0], [-1, 0]])          # an infinite entry next to finite ones
+        elif k and dt[0] == "f" and r.random() < 0.6:
+            val = ["col", [[0, r.choice([1, -1])] for _ in range(k)]]      # zeros of either sign: equal as numbers, different as values
     elif vk == "flat":
         # the number of addressed cells of a row / flat selection
         cnt = r.randint(1, 4)
@@ -409,8 +418,13 @@ def gen_c09(r):
     lens = rnd_lens(r, 8, 7)
     if r.random() < 0.2:
         lens = lens + [r.randint(8, 12)]
-    dt = r.choice(["b1", "i1", "u1", "i2", "i8", "u4", "f8", "f4"])
+    dt = r.choice(["b1", "i1", "u1", "i2", "i8", "u4", "f8", "f4", "f2"])
     arr = rnd_arr(r, dt, lens, finite_only=True)
+    if dt == "f2" and r.random() < 0.6:
+        # large float16 values, column-wise nearly constant: the totals leave the float16 range, the means do not
+        pal = [60000, 30000, 65504, 32768, 1024, 2048, 40960, 3, 5]
+        cv = [r.choice(pal) for _ in range(max(lens) if lens else 0)]
+        arr = [dt, [[[cv[j] if r.random() < 0.85 else r.choice(pal), 1] for j in range(l)] for l in lens]]
     name = r.choice(["colsum", "colsum", "colmean", "colcounts", "colvalues"])
     j = r.randint(0, max(lens) if lens else 0) if name == "colvalues" else 0
     return ["col", name, arr, j], opts_for(r, "col"), False
@@ -423,6 +437,10 @@ def generate(prop, seed, n):
     r = random.Random(f"{prop}-{seed}")
     out = []
     for i in range(n):
+        _NEGZERO[0] = 0.12 if prop in ("C01", "C02", "C03", "C08") and r.random() < 0.4 else 0.0
         case, opts, strict = GEN[prop](r)
+        if case[0] in ("ufunc", "reduce", "scan", "col"):
+            assert not _NEGZERO[0] or prop not in ("C04", "C05", "C07", "C09")
         out.append({"id": i, "case": case, "opts": opts, "strict": strict})
+    _NEGZERO[0] = 0.0
     return out
